@@ -18,25 +18,31 @@ Every generated session is run FOUR ways: {extracted model, real implementation}
        would be a witness of (e).  None is known (see the report): the count is recorded in the evidence.
 """
 import json, os, sys, copy, time, subprocess
-import lib, loop_impl, loop_gen, glib_impl
+import lib, loop_impl, loop_gen, glib_impl, c20_gen
 import c20_diff as D
 
 sys.path.insert(0, os.path.join(lib.VERIF, "corpus", "glib"))
 
 RULE = ("sessions = handler programs over the loop API (enqueue / raise / exit / force_quit / execute_new_loop / close_loop / "
         "process_signals / registrations, guarded by invocation counters) + top-level calls (harness/loop_gen.py: general, "
-        "ties, well-bracketed nesting to depth 4, malformed stream) + the witnesses and scheduler scenarios of "
+        "ties, well-bracketed nesting to depth 4, malformed stream; harness/c20_gen.py: scheduler-like render/close chains with "
+        "modal nesting, about a third of them in the fragment of C20_agree_partial) + the witnesses and scheduler scenarios of "
         "corpus/glib/witnesses.py; each run four ways (model/implementation x MainLoop/GLibEventLoop over real libglib); "
         "non-trivial = a session in which BOTH real loops invoke >= 3 handlers and open >= 1 nested loop")
 
 MANIFEST = dict(
-    text=("Partial. Proof (Coq, closed under the global context): the universally quantified statement is FALSE of the code as it is — "
+    text=("Partial. Proof (Coq, closed under the global context): (1) the universally quantified statement is FALSE of the code as it is — "
           "C20_refuted and one machine-checked witness session per class of behavioural difference between the MainLoop model and the "
           "GLibEventLoop model (C20_refuted_raise_skips_handlers F9(a), _exception_not_overtaking F9(b), _exit_batch_continues F9(c), "
-          "_close_no_drain F9(d), C20_refuted_more: nine further classes); agreement is shown by computation on the six "
-          "screen_scheduler_test scenarios (Examples). Every witness is replayed on the two real loops (MainLoop; GLibEventLoop over the real "
+          "_close_no_drain F9(d), _mark_after_handlers F9(e), C20_refuted_more: nine further classes); (2) C20_agree_partial: for EVERY handler "
+          "code, user state, fuel and list of top-level calls in a decidable fragment (one signal pending per level at a time, handlers "
+          "registered before the enqueue, no ordinary exception out of a handler, ExitMainLoop only with no nested loop open, close_loop only "
+          "inside a nested loop with nothing to drain, no force_quit / process_signals / foreign submissions) the GLibEventLoop model ends "
+          "every top-level call like the MainLoop model and produces the same EHandler/EMark sequence up to the quit — by a simulation relation "
+          "between queues and GLib contexts; the six screen_scheduler_test scenarios are in the fragment (Example). Every witness is replayed on the two real loops (MainLoop; GLibEventLoop over the real "
           "libglib-2.0) and differs there in the same way. Every generated session is run on both models and both implementations: "
-          "model = implementation on the whole trace for each loop, and every difference between the two real loops falls into a known class."),
+          "model = implementation on the whole trace for each loop, every difference between the two real loops falls into a known class, and on "
+          "every session in the fragment the two real loops agree."),
     note=("Trusted: Coq kernel, extraction, harness. The GLib part of GLibSem.v (main context: batch = ready sources of the lowest priority value at "
           "the start of an iteration, attach order, recursion skips the in-call source and takes over the outer batch, run sets is_running, quit "
           "before run is lost) is a model of an external C library: NOT verified, validated against the real libglib-2.0.so.0 (2.74) by "
@@ -44,7 +50,8 @@ MANIFEST = dict(
           "PyGObject's surface (an ordinary exception leaving a callback is printed and answers FALSE; SystemExit ends the session). External "
           "submissions arrive when the iterated context is idle (canonical schedule; other timings are C19's subject). The screen layer above the "
           "loop is not part of this check: 'same screens, same input lines' is covered only through the handler/mark sequence of loop-level sessions."),
-    technique=("Coq: two fuel-indexed interpreters over the same handler-program language, refutation by vm_compute witnesses; "
+    technique=("Coq: two fuel-indexed interpreters over the same handler-program language, refutation by vm_compute witnesses, agreement on a "
+               "fragment by a big-step simulation (induction on fuel, fuel monotonicity of the GLib interpreter); "
                "4-way differential run (2 extracted models, 2 real loops, real libglib via ctypes) with a classifier of the first divergence"))
 
 CASE_TIMEOUT = 4.0        # seconds of wall clock for one session on the GLib worker (a normal one takes milliseconds)
@@ -73,6 +80,8 @@ def gen_cases(rng, n):
             cases.append(loop_gen.gen_ties_case(rng))
         else:
             cases.append(loop_gen.gen_case(rng, malformed=(r < 0.15), nest=(r > 0.05)))
+    for i in range(n // 2):
+        cases.append(c20_gen.gen_frag_case(rng))
     return cases
 
 
@@ -111,13 +120,14 @@ class FourWay(object):
                 self.suspect.append((c, i, g))
                 continue
             self.cases.append(c); self.impl_m.append(i); self.impl_g.append(g)
-        self.model_m, self.model_g, self.model_mf = [], [], []
+        self.model_m, self.model_g, self.model_mf, self.frag = [], [], [], []
         CH = 2000
         try:
             for a in range(0, len(self.cases), CH):
                 self.model_m += lib.model_run("loop", self.cases[a:a + CH], timeout=300)
                 self.model_g += lib.model_run("gloop", self.cases[a:a + CH], timeout=300)
                 self.model_mf += lib.model_run("gloopmf", self.cases[a:a + CH], timeout=300)
+                self.frag += [r == [1] for r in lib.model_run("gloopfrag", self.cases[a:a + CH], timeout=300)]
         except subprocess.TimeoutExpired as e:
             raise lib.ModelError("model runner timed out: %s" % e)
         # sessions the real GLib loop did not finish: legitimate only if the GLib model does not finish them either
@@ -240,11 +250,11 @@ def run(chk, tier):
             mf_reported = True
         sc = W.scenarios()
         fs = FourWay([s["case"] for s in sc], worker)
-        for s, c, i, g, mm, mg in zip(sc, fs.cases, fs.impl_m, fs.impl_g, fs.model_m, fs.model_g):
+        for s, c, i, g, mm, mg, fr in zip(sc, fs.cases, fs.impl_m, fs.impl_g, fs.model_m, fs.model_g, fs.frag):
             chk.count()
             if nontrivial(i, g):
                 chk.nontriv(c)
-            if D.observable(c, i) != D.observable(c, g) or i != mm or g != mg or i[0] != [0, 0]:
+            if D.observable(c, i) != D.observable(c, g) or i != mm or g != mg or i[0] != [0, 0] or not fr:
                 chk.violation("scenario:%s" % s["name"], "scheduler scenario %s: the two real loops (or a model) disagree" % s["name"],
                               dict(kind="c20", case=c), found=(D.observable(c, i) != D.observable(c, g)))
         if len(fs.cases) != len(sc):
@@ -266,8 +276,19 @@ def run(chk, tier):
                       % ([OUT.get(o) for o in g[0]], [OUT.get(o) for o in i[0]], [OUT.get(o) for o in m[0]]),
                       dict(kind="c20", case=c, glib_tail=pretty(g[1])[-40:]), found=(D.observable(c, i) != D.observable(c, m)))
     mf_witness = 0
-    for c, i, g, mm, mg, mf in zip(fw.cases, fw.impl_m, fw.impl_g, fw.model_m, fw.model_g, fw.model_mf):
+    nfrag = nfrag_nt = 0
+    for c, i, g, mm, mg, mf, fr in zip(fw.cases, fw.impl_m, fw.impl_g, fw.model_m, fw.model_g, fw.model_mf, fw.frag):
         chk.count()
+        if fr:
+            # theorem C20_agree_partial determines the answer: same outcomes, same handler/mark sequence
+            nfrag += 1
+            nfrag_nt += 1 if nontrivial(i, g) else 0
+            if D.observable(c, i) != D.observable(c, g) or i[0] != g[0]:
+                chk.violation("fragment-agreement",
+                              "a session in the fragment of theorem C20_agree_partial (in_fragment = true) on which the real MainLoop and the "
+                              "real GLibEventLoop differ: outcomes %s / %s, handler sequences %s... / %s..." % (
+                                  i[0], g[0], str(D.observable(c, i)[1])[:100], str(D.observable(c, g)[1])[:100]),
+                              dict(kind="c20", case=c, in_fragment=True), found=True)
         chk.hist("outcome main=%s glib=%s" % (OUT.get(i[0][-1] if i[0] else None), OUT.get(g[0][-1] if g[0] else None)))
         if nontrivial(i, g):
             chk.nontriv(c)
@@ -287,8 +308,9 @@ def run(chk, tier):
     chk.extra["model_impl_disagreements"] = dict(main=stats["corr_main"], glib=stats["corr_glib"])
     chk.extra["example_session_per_key"] = {k: v for k, v in sorted(stats["keys"].items())}
     chk.extra["F9e_sessions_where_mark_order_is_observable"] = mf_witness
+    chk.extra["sessions_in_fragment_of_C20_agree_partial"] = dict(total=nfrag, nontrivial=nfrag_nt)
     chk.extra["known_finding_keys"] = sorted(D.KEYS)
-    chk.notes.append("level: proof (partial) — refutation + findings + validated GLib model; no agreement theorem beyond the computed scenarios")
+    chk.notes.append("level: proof (partial) — refutation + findings + agreement proved on a decidable fragment; GLib itself is a validated model")
     chk.notes.append("wall of the run part: %.1fs" % (time.time() - t0))
 
 
